@@ -266,11 +266,13 @@ Proof. reflexivity. Qed.
 Lemma t_caus_set_unparked : forall t, t_caus (set_unparked t) = t_caus t.
 Proof.
   intros t. unfold set_unparked.
-  destruct (is_blocked t || is_yield t); [reflexivity|].
-  destruct (is_runnable t); reflexivity.
+  destruct (is_parked t); [reflexivity|].
+  destruct (is_terminated t); reflexivity.
 Qed.
 Lemma t_caus_thread_unpark : forall t c, t_caus (thread_unpark t c) = vv_join (t_caus t) c.
 Proof. intros t c. unfold thread_unpark. rewrite t_caus_set_unparked. reflexivity. Qed.
+Lemma t_caus_thread_notified : forall t c, t_caus (thread_notified t c) = vv_join (t_caus t) c.
+Proof. reflexivity. Qed.
 
 (* ---- projections of the exec setters ---- *)
 Lemma e_threads_set_threads : forall e l, e_threads (ex_set_threads e l) = l.
@@ -997,7 +999,7 @@ Lemma exec_micro_notify_post : forall e me n,
   | Some s =>
       let sy := sync_store (nt_sync s) (caus_of e me) (rel_of e me) Release in
       let e1 := upd_object e n (fun _ => ONotify (nt_set s (nt_did_spur s) true sy)) in
-      MOk (map_others e1 me (pending_on n) (fun t => thread_unpark t (caus_of e1 me)))
+      MOk (map_others e1 me (pending_on n) (fun t => thread_notified t (caus_of e1 me)))
   end.
 Proof. reflexivity. Qed.
 
@@ -1042,7 +1044,7 @@ Proof.
   inversion Hex as [He']. clear Hex.
   rewrite (caus_of_map_others_hit _ me (pending_on n) _ j t Hne);
     [| rewrite get_thread_upd_object; exact Hth | exact Hpend].
-  rewrite t_caus_thread_unpark. rewrite caus_of_upd_object.
+  rewrite t_caus_thread_notified. rewrite caus_of_upd_object.
   assert (Hcj : caus_of e j = t_caus t) by (unfold caus_of; rewrite Hth; reflexivity).
   rewrite Hcj.
   split; [apply vle_join_r | split; [apply vle_join_l | reflexivity]].
